@@ -134,12 +134,12 @@ class Ctx:
     def validate(self, module, traces, timeout=3000, heap='6g', cfg=None, par=None):
         t = time.time()
         if par is None:
-            # TLC holds the deserialised trace in memory (roughly 14x the file size): bound heap and parallelism by the largest trace
+            # TLC holds the deserialised trace in memory (roughly 14x the file size, more for deeply nested events) and a JVM grows to
+            # its -Xmx before it collects: the parallel validations together get MEM_BUDGET_GB, each a fixed share as its ceiling
             big = max([os.path.getsize(x) for x in traces] + [0]) / 1e9
-            need = int(big * 14) + 2                      # estimated use; -Xmx is only a ceiling
-            if need + 2 > int(heap.rstrip('g')):
-                heap = '%dg' % (need + 2)
-            par = max(1, min(NCPU, int(MEM_BUDGET_GB // need)))
+            xmx = max(int(big * 14) + 4, 4)
+            par = max(1, min(8, NCPU, int(MEM_BUDGET_GB // xmx)))
+            heap = '%dg' % max(xmx, int(MEM_BUDGET_GB // par))
         with ThreadPoolExecutor(max_workers=par or NCPU) as ex:
             results = list(ex.map(lambda tr: self.validate_one(module, tr, timeout, heap, cfg), traces))
         for r in results:
